@@ -39,6 +39,10 @@ Clone(c, d) == /\ ctx[c].alive /\ ~ctx[d].alive
                /\ ctx' = [ctx EXCEPT ![d] = [alive |-> TRUE, trusted |-> ctx[c].trusted, objs |-> ctx[c].objs]]
                /\ UNCHANGED <<granted, loaded>> /\ Rec([a |-> "clone", c |-> d, from |-> c])
 
+\* the host promotes or demotes a context (Context::trusted(bool)): e.g. set-up text run with full rights, then demoted
+SetTrust(c, b) == /\ ctx[c].alive /\ ctx[c].trusted # b
+                  /\ ctx' = [ctx EXCEPT ![c].trusted = b] /\ UNCHANGED <<granted, loaded>> /\ Rec([a |-> "settrust", c |-> c, on |-> b])
+
 \* script statements; ok = accepted by the compiler
 ImportByName(c, m) == /\ ctx[c].alive /\ loaded' = loaded \cup {m} /\ UNCHANGED <<granted, ctx>>
                       /\ Rec([a |-> "import", c |-> c, m |-> m, ok |-> TRUE])
@@ -62,6 +66,7 @@ Next == /\ Len(hist) < MaxLen + Len(Prefix)
            THEN \/ \E m \in Modules : Unban(m)
                 \/ ClearPermissions
                 \/ \E m \in Modules, f \in {"args", "default"} : Ctor(1, m, "top", f)
+                \/ \E b \in BOOLEAN : SetTrust(1, b)
            ELSE \/ \E m \in Modules : Unban(m)
                 \/ ClearPermissions
                 \/ Clone(1, 2) \/ Clone(0, 2)
@@ -78,6 +83,9 @@ GrantedAtCompile(c, m) ==
        /\ LET g == {hist[q].m : q \in {q \in 1..(j - 1) : hist[q].a = "unban"
                                         /\ ~\E z \in (q + 1)..(j - 1) : hist[z].a = "clear"}} IN
           m \in g \/ (\E q \in DOMAIN hist : hist[q].a = "clone" /\ hist[q].c = 2 /\ hist[q].from = 0 /\ hist[j].c = 2) \/ hist[j].c = 0
+          \* or the context was promoted by the host when the constructor was compiled
+          \/ (\E q \in 1..(j - 1) : hist[q].a = "settrust" /\ hist[q].c = hist[j].c /\ hist[q].on
+                                     /\ ~\E z \in (q + 1)..(j - 1) : hist[z].a = "settrust" /\ hist[z].c = hist[j].c /\ ~hist[z].on)
 \* C16: an untrusted context holds an object of m only if m was granted when its constructor was compiled there
 NoUngrantedObject ==
   \A c \in Ctxs : ctx[c].alive /\ ~ctx[c].trusted => \A m \in ctx[c].objs : GrantedAtCompile(c, m)
